@@ -388,6 +388,12 @@ def compare(I, op, a, b, frame=None):
             r = any((not isinstance(x, SV)) and x == a for x in items)
         elif isinstance(b, Opaque) and b.tag[0] == 'keys':
             r = a in b.tag[1]
+        elif isinstance(b, SArr):
+            # x in array: some position holds x
+            kk = z3.Int(_fresh_name(I, 'k'))
+            at = lift(a).t
+            ex_ = z3.Exists([kk], z3.And(kk >= 0, kk < b.n, z3.Select(b.a, kk) == (z3.ToReal(at) if (z3.is_int(at) and b.elem == 'real') else at)))
+            return SV(ex_ if op is ast.In else z3.Not(ex_))
         else:
             raise Unsupported(f"'in' on {type(b).__name__}")
         return r if op is ast.In else not r
